@@ -302,9 +302,9 @@ func structNames(ty reflect.Type) []string {
 // ---- signatures -----------------------------------------------------------------------------------
 
 var scalarTypes = []string{"int8", "int16", "int32", "int64", "int", "uint8", "uint16", "uint32", "uint64", "uint", "float32", "float64", "string", "bool", "any"}
-var namedTypes = []string{"MyInt", "MyI64", "MyU8", "MyF64", "MyStr", "MyBool"}
+var namedTypes = []string{"MyInt", "MyI64", "MyU8", "MyF64", "MyStr", "MyBool", "MyU64", "MyU64", "MyUint", "MyI8", "MyF32"}
 var containerTypes = []string{"[]int", "[]int8", "[]uint8", "[]uint16", "[]int64", "[]float32", "[]float64", "[]string", "[]bool", "[]any", "[][]int", "[]Inner", "IntSl", "[3]int",
-	"map[string]int", "map[string]int8", "map[string]uint16", "map[string]float32", "map[string]float64", "map[string]string", "map[string]bool", "map[string]any", "map[string][]int", "map[int]string", "map[int]int", "StrIntM", "Hdr", "map[KStr]int", "map[KInt]string", "map[KStr]MyStr", "map[string]MyInt", "[]MyInt",
+	"map[string]int", "map[string]int8", "map[string]uint16", "map[string]float32", "map[string]float64", "map[string]string", "map[string]bool", "map[string]any", "map[string][]int", "map[int]string", "map[int]int", "StrIntM", "Hdr", "*uint64", "*int64", "*MyU64", "[]MyU64", "[]uint64", "Nums", "map[string]MyU64", "map[KStr]int", "map[KInt]string", "map[KStr]MyStr", "map[string]MyInt", "[]MyInt",
 	"S", "*S", "Inner", "*Inner", "TwinA", "TwinB", "*TwinA", "*TwinB", "*int", "*int8", "*string", "*float32", "*[3]int",
 	"func(int)int", "func(int8)int8", "func(string)string", "func(float64)float32", "func()", "func(int)(int,string)", "error"}
 
@@ -347,6 +347,29 @@ var returnSamples = []outSpec{
 	{Echo: -1, T: "*Inner", V: m16.GV{K: "struct", T: "Inner", Keys: []string{"X", "Y"}, Elems: []m16.GV{m16.NumI(-4), m16.Str("")}}},
 	{Echo: -1, T: "*[3]int", V: m16.List(m16.NumI(1), m16.NumI(2), m16.NumI(3))},
 	{Echo: -1, T: "MyInt", V: m16.NumI(-5)},
+	{Echo: -1, T: "MyU64", V: m16.Num("9223372036854775808")},
+	{Echo: -1, T: "MyU64", V: m16.Num("18446744073709551615")},
+	{Echo: -1, T: "MyU64", V: m16.Num("9223372036854775807")},
+	{Echo: -1, T: "MyUint", V: m16.Num("18446744073709549568")},
+	{Echo: -1, T: "uint64", V: m16.Num("18446744073709551615")},
+	{Echo: -1, T: "uint", V: m16.Num("9223372036854775808")},
+	{Echo: -1, T: "MyI64", V: m16.Num("-9223372036854775808")},
+	{Echo: -1, T: "MyI8", V: m16.NumI(-128)},
+	{Echo: -1, T: "MyU8", V: m16.NumI(255)},
+	{Echo: -1, T: "MyF32", V: m16.NumF(float64(float32(0.1)))},
+	{Echo: -1, T: "MyF64", V: m16.NumF(5e-324)},
+	{Echo: -1, T: "*uint64", V: m16.Num("9223372036854775808")},
+	{Echo: -1, T: "*MyU64", V: m16.Num("18446744073709551615")},
+	{Echo: -1, T: "*int64", V: m16.Num("-9223372036854775808")},
+	{Echo: -1, T: "[]MyU64", V: m16.List(m16.Num("1"), m16.Num("9223372036854775808"), m16.Num("18446744073709551615"))},
+	{Echo: -1, T: "[]uint64", V: m16.List(m16.Num("18446744073709551615"))},
+	{Echo: -1, T: "map[uint64]string", V: m16.MapOf([]string{"18446744073709551615", "7"}, []m16.GV{m16.Str("max"), m16.Str("seven")})},
+	{Echo: -1, T: "map[string]MyU64", V: m16.MapOf([]string{"k"}, []m16.GV{m16.Num("9223372036854775808")})},
+	{Echo: -1, T: "Nums", V: func() m16.GV {
+		g := m16.Zero(m16.TypeOf("Nums"))
+		g = g.WithField("ID", m16.Num("18446744073709551615")).WithField("U", m16.Num("9223372036854775808")).WithField("UI", m16.Num("9223372036854775809"))
+		return g.WithField("PU", m16.Ptr(m16.Num("12297829382473034410"))).WithField("I8", m16.NumI(-128)).WithField("L", m16.Num("-9223372036854775808"))
+	}()},
 	{Echo: -1, T: "MyStr", V: m16.Str("named")},
 }
 
@@ -442,8 +465,14 @@ func genGoValue(t *rapid.T, ty reflect.Type, depth int) m16.GV {
 	case k == reflect.Bool:
 		return m16.Bool(rapid.Bool().Draw(t, "gbool"))
 	case m16.IsInt(k):
+		if (k == reflect.Int64 || k == reflect.Int) && rapid.IntRange(0, 7).Draw(t, "gintExtreme") == 0 {
+			return m16.Num(rapid.SampledFrom([]string{"9223372036854775807", "-9223372036854775808", "9007199254740993", "-4611686018427387904"}).Draw(t, "gint64"))
+		}
 		return m16.NumI(int64(rapid.IntRange(-100, 100).Draw(t, "gint")))
 	case m16.IsUint(k):
+		if (k == reflect.Uint64 || k == reflect.Uint) && rapid.IntRange(0, 4).Draw(t, "guintExtreme") == 0 {
+			return m16.Num(rapid.SampledFrom([]string{"9223372036854775808", "18446744073709551615", "9223372036854775807", "12297829382473034410", "18446744073709549568"}).Draw(t, "guint64"))
+		}
 		return m16.NumI(int64(rapid.IntRange(0, 200).Draw(t, "guint")))
 	case m16.IsFloat(k):
 		return m16.NumF(float64(rapid.IntRange(-40, 40).Draw(t, "ghalf")) / 2)
@@ -483,7 +512,11 @@ func genGoValue(t *rapid.T, ty reflect.Type, depth int) m16.GV {
 			var key string
 			if ty.Key().Kind() == reflect.String {
 				key = rapid.SampledFrom([]string{"a", "b", "c", "k", "x y", "", "0", "7"}).Draw(t, "gkey")
-			} else if m16.IsUint(ty.Key().Kind()) {
+			} else if kk := ty.Key().Kind(); kk == reflect.Uint64 || kk == reflect.Uint {
+				key = rapid.SampledFrom([]string{"0", "7", "9223372036854775808", "18446744073709551615", "9223372036854775807"}).Draw(t, "gkey")
+			} else if kk == reflect.Int64 {
+				key = rapid.SampledFrom([]string{"0", "-1", "7", "9223372036854775807", "-9223372036854775808"}).Draw(t, "gkey")
+			} else if m16.IsUint(kk) {
 				key = rapid.SampledFrom([]string{"0", "1", "7", "100"}).Draw(t, "gkey")
 			} else {
 				key = rapid.SampledFrom([]string{"0", "1", "-1", "7", "100"}).Draw(t, "gkey")
@@ -523,6 +556,9 @@ var histContainers = []contSpec{
 	{Kind: "map", T: "map[string]int"}, {Kind: "map", T: "map[string]int8"}, {Kind: "map", T: "map[string]uint16"}, {Kind: "map", T: "map[string]float32"},
 	{Kind: "map", T: "map[string]float64"}, {Kind: "map", T: "map[string]string"}, {Kind: "map", T: "map[string]bool"}, {Kind: "map", T: "map[string]any"},
 	{Kind: "map", T: "map[int]string"}, {Kind: "map", T: "map[int8]string"}, {Kind: "map", T: "map[uint16]int"}, {Kind: "map", T: "StrIntM"}, {Kind: "map", T: "StrIntM"}, {Kind: "map", T: "Hdr"}, {Kind: "map", T: "Hdr"}, {Kind: "map", T: "Hdr"},
+	{Kind: "pstruct", T: "Nums"}, {Kind: "pstruct", T: "Nums"}, {Kind: "vstruct", T: "Nums"},
+	{Kind: "map", T: "map[uint64]string"}, {Kind: "map", T: "map[uint64]string"}, {Kind: "map", T: "map[int64]string"}, {Kind: "map", T: "map[uint32]int"}, {Kind: "map", T: "map[uint]int"},
+	{Kind: "map", T: "map[string]MyU64"}, {Kind: "slice", T: "[]MyU64"}, {Kind: "slice", T: "[]uint64"},
 	{Kind: "map", T: "map[KStr]int"}, {Kind: "map", T: "map[KStr]int"}, {Kind: "map", T: "map[KInt]string"}, {Kind: "map", T: "map[KStr]MyStr"}, {Kind: "map", T: "map[string]MyInt"}, {Kind: "slice", T: "[]MyInt"},
 	{Kind: "slice", T: "[]int"}, {Kind: "slice", T: "[]int8"}, {Kind: "slice", T: "[]uint16"}, {Kind: "slice", T: "[]int64"}, {Kind: "slice", T: "[]float32"},
 	{Kind: "slice", T: "[]float64"}, {Kind: "slice", T: "[]string"}, {Kind: "slice", T: "[]bool"}, {Kind: "slice", T: "[]any"}, {Kind: "slice", T: "IntSl"},
@@ -535,7 +571,7 @@ var histContainers = []contSpec{
 }
 
 var mapKeyPoolString = []string{"a", "b", "c", "k", "zzz", "x y", "", "0", "7", "length", "A"}
-var mapKeyPoolInt = []string{"0", "1", "-1", "7", "100", "300", "128", "-129", "65536", "abc", "1.5", "1e3", "0x10", "010", "1_0", "+5", " 5", "", "9223372036854775808"}
+var mapKeyPoolInt = []string{"18446744073709551615", "9223372036854775807", "-9223372036854775808", "0", "1", "-1", "7", "100", "300", "128", "-129", "65536", "abc", "1.5", "1e3", "0x10", "010", "1_0", "+5", " 5", "", "9223372036854775808"}
 var listKeyPool = []string{"0", "1", "2", "3", "4", "5", "9", "foo", "zzz", "-1", "1.5", "4294967295"}
 
 func genStepVal(t *rapid.T, ty reflect.Type) *m16.JV {
@@ -693,6 +729,10 @@ func genHist(t *rapid.T) histCase {
 			case "gomut", "godel":
 				if ty.Key().Kind() == reflect.String {
 					s.Key = rapid.SampledFrom(goKeys).Draw(t, "gkey")
+				} else if kk := ty.Key().Kind(); kk == reflect.Uint64 || kk == reflect.Uint {
+					s.Key = rapid.SampledFrom([]string{"0", "7", "9223372036854775808", "18446744073709551615"}).Draw(t, "gkey")
+				} else if kk == reflect.Int64 {
+					s.Key = rapid.SampledFrom([]string{"0", "-1", "9223372036854775807", "-9223372036854775808"}).Draw(t, "gkey")
 				} else if m16.IsUint(ty.Key().Kind()) {
 					s.Key = rapid.SampledFrom([]string{"0", "1", "7", "100"}).Draw(t, "gkey")
 				} else {
